@@ -599,7 +599,8 @@ func (g *Gen) Object(depth int, inObject bool) *Node {
 	}
 	switch rng.IntN(8) {
 	case 0:
-		v := pick(rng, []string{"true", "false", `"string"`, `"integer"`, `"any"`, `"null"`, `"float"`, `"boolean"`, `"array"`, `"object"`})
+		v := pick(rng, []string{"true", "false", `"string"`, `"integer"`, `"any"`, `"null"`, `"float"`, `"boolean"`, `"array"`, `"object"`,
+			`"decimal"`, `"enum"`, `"mixed"`, `"email"`, `"uri"`, `"uuid"`, `"date"`, `"datetime"`})
 		if ts := g.Types; len(ts) > 0 && !g.NoRefs && rng.IntN(3) == 0 {
 			v = Q(pick(rng, ts).Name)
 		}
